@@ -169,13 +169,25 @@ func genCase(r *rng.R) rcase {
 	// before and left an unreported message behind (paused status, or a final status of a refused
 	// request whose entry was replaced and cancelled): its report arrives during the monitored life
 	first := uint64(r.Range(1, 3))
+	var leftovers []op // pops of whatever the foreign peer may have left queued / parked under the id
 	switch x := r.Intn(10); {
 	case x < 2:
+		// the foreign peer's request was queued (task pushed), perhaps started, then cancelled
+		fp := uint64(r.Range(2, 3))
+		q := newReq(first)
+		q.Hr = 0
+		c.Ops = append(c.Ops, op{K: "msg", P: fp, Reqs: []opReq{q}})
+		if r.P(1, 4) {
+			c.Ops = append(c.Ops, op{K: "run", P: fp, ID: first})
+		}
+		c.Ops = append(c.Ops, op{K: "msg", P: fp, Reqs: []opReq{{K: "cancel", ID: first}}})
+		leftovers = []op{{K: "run", P: fp, ID: first}, {K: "step", P: fp, ID: first}, {K: "step", P: fp, ID: first}}
+	case x < 4:
 		fp := uint64(r.Range(2, 3))
 		q := newReq(first)
 		q.Hr = 2
 		c.Ops = append(c.Ops, op{K: "msg", P: fp, Reqs: []opReq{q}}, op{K: "msg", P: fp, Reqs: []opReq{{K: "cancel", ID: first}}})
-	case x < 4:
+	case x < 6:
 		fp := uint64(r.Range(2, 3))
 		q1, q2 := newReq(first), newReq(first)
 		q1.Hr, q2.Hr = 1+2*r.Intn(2), 2
@@ -184,12 +196,30 @@ func genCase(r *rng.R) rcase {
 	}
 	c.Ops = append(c.Ops, op{K: "msg", P: 1, Reqs: []opReq{newReq(first)}})
 	aIDs = append(aIDs, first)
+	popForeign := func(id uint64) {
+		// every task a foreign peer still has queued under the id is popped, every executor it has
+		// parked there is released
+		for fp := uint64(2); fp <= nPeers; fp++ {
+			c.Ops = append(c.Ops, op{K: "run", P: fp, ID: id})
+			if r.P(1, 2) {
+				c.Ops = append(c.Ops, op{K: "step", P: fp, ID: id, Bh: r.Intn(3)})
+			}
+		}
+	}
+	if len(leftovers) > 0 {
+		c.Ops = append(c.Ops, leftovers...)
+	} else if r.P(1, 3) {
+		popForeign(first)
+	}
 	for i := 0; i < n; i++ {
 		switch x := r.Intn(100); {
 		case x < 10: // the monitored peer asks for something (fresh id, sometimes one it already uses)
 			id := uint64(r.Range(1, 4))
 			c.Ops = append(c.Ops, op{K: "msg", P: 1, Reqs: []opReq{newReq(id)}})
 			aIDs = append(aIDs, id)
+			if r.P(1, 2) {
+				popForeign(id)
+			}
 		case x < 18: // its own cancel / update
 			id := pickA()
 			q := otherReq(id)
@@ -231,9 +261,19 @@ func genCase(r *rng.R) rcase {
 		case x < 97:
 			c.Ops = append(c.Ops, op{K: "notify", P: uint64(r.Range(2, 3)), ID: pickA(), OK: r.P(7, 10)})
 		case x < 98:
-			c.Ops = append(c.Ops, op{K: "run", P: uint64(r.Range(2, 3)), ID: uint64(r.Range(1, nIDs))})
+			id := pickA()
+			if r.P(1, 3) {
+				id = uint64(r.Range(1, nIDs))
+			}
+			c.Ops = append(c.Ops, op{K: "run", P: uint64(r.Range(2, 3)), ID: id})
+		case x < 99:
+			id := pickA()
+			if r.P(1, 3) {
+				id = uint64(r.Range(1, nIDs))
+			}
+			c.Ops = append(c.Ops, op{K: "step", P: uint64(r.Range(2, 3)), ID: id, Bh: r.Intn(3)})
 		default:
-			c.Ops = append(c.Ops, op{K: "step", P: uint64(r.Range(2, 3)), ID: uint64(r.Range(1, nIDs)), Bh: r.Intn(3)})
+			popForeign(pickA())
 		}
 	}
 	return c
